@@ -434,6 +434,81 @@ def _strip_loop(ctx, k, f, neg, extra=None):
     return out
 
 
+_SIGNED_FMT = {"b": 1, "h": 2, "i": 4, "l": 4, "q": 8}
+
+
+def _packed_signed_octets(e):
+    """`e` builds the octets of self.value from a big-endian signed struct.pack, optionally wrapped in bytearray()/bytes()
+    and with leading octets sliced off: -> (format width, octets kept) or None"""
+    while isinstance(e, ast.Call) and isinstance(e.func, ast.Name) and e.func.id in ("bytearray", "bytes") and len(e.args) == 1 and not e.keywords:
+        e = e.args[0]
+    drop = 0
+    if isinstance(e, ast.Subscript) and isinstance(e.slice, ast.Slice) and e.slice.upper is None and e.slice.step is None \
+            and isinstance(e.slice.lower, ast.Constant) and isinstance(e.slice.lower.value, int) and e.slice.lower.value >= 0:
+        drop = e.slice.lower.value
+        e = e.value
+    if not (isinstance(e, ast.Call) and norm(e.func) == "struct.pack" and len(e.args) == 2 and not e.keywords):
+        return None
+    fmt = e.args[0].value if isinstance(e.args[0], ast.Constant) else None
+    if not isinstance(fmt, str) or len(fmt) != 2 or fmt[0] not in ">!" or fmt[1] not in _SIGNED_FMT or norm(e.args[1]) != "self.value":
+        return None
+    width = _SIGNED_FMT[fmt[1]]
+    return (width, width - drop) if drop < width else None
+
+
+def _size_ladder(ctx, k, enc, ev):
+    """Integer.encode written as a ladder of range tests, each arm packing self.value in a fixed signed width: for every
+    boundary of the signed 1..4 octet ranges, every constant the function compares with and their neighbours, the octets
+    emitted on the (single) feasible path must be the shortest two's complement form.  -> {'neg': bool, 'pos': bool} or None
+    when the function is not of that shape"""
+    from .common import path_value
+    sets = [c for c in calls_in(enc) if isinstance(c.func, ast.Attribute) and c.func.attr == "set_app_data" and len(c.args) == 2]
+    if len(sets) != 1:
+        return None
+    st = enclosing_stmt(sets[0])
+    dname = norm(sets[0].args[1])
+    consts = {n.value for n in ast.walk(enc) if isinstance(n, ast.Constant) and isinstance(n.value, int) and not isinstance(n.value, bool)}
+    consts |= {-c for c in consts}
+    pts = {0, 1, -1, 5, -5, 300, -300, 70000, -70000, (1 << 24) + 5, -(1 << 24) - 5}
+    for b in (7, 15, 23, 31):
+        pts |= {(1 << b) - 1, 1 << b, -(1 << b), -(1 << b) - 1}
+    for c in consts:
+        pts |= {c - 1, c, c + 1}
+    pts = sorted(v for v in pts if -(1 << 31) <= v <= (1 << 31) - 1)
+    paths = enumerate_paths(enc)
+    res = {"neg": True, "pos": True}
+    seen = 0
+    for v in pts:
+        want = next(n for n in (1, 2, 3, 4) if -(1 << (8 * n - 1)) <= v <= (1 << (8 * n - 1)) - 1)
+        shapes = set()
+        for p in paths:
+            if not any(e_.node is st for e_ in p.events):
+                continue
+            kind, _ = path_value(p, ev, {"self.value": v}, dname, upto=st)
+            if kind == "infeasible":
+                continue
+            last = None
+            for e_ in p.events:
+                if e_.node is st:
+                    break
+                if e_.kind == "stmt" and isinstance(e_.node, ast.Assign) and len(e_.node.targets) == 1 and norm(e_.node.targets[0]) == dname:
+                    last = e_.node.value
+                elif e_.kind == "stmt" and any(isinstance(x, (ast.Name, ast.Subscript)) and isinstance(x.ctx, (ast.Store, ast.Del)) and norm(x).split("[")[0] == dname for x in ast.walk(e_.node)):
+                    last = False
+            shapes.add(_packed_signed_octets(last) if last not in (None, False) else None)
+        if not shapes:
+            return None                                   # an in-range value that reaches no encoder: not this shape
+        seen += 1
+        ok = len(shapes) == 1 and None not in shapes
+        if ok:
+            width, kept = next(iter(shapes))
+            ok = kept == want and -(1 << (8 * width - 1)) <= v <= (1 << (8 * width - 1)) - 1
+        if not ok:
+            res["neg" if v < 0 else "pos"] = False
+    ctx.count("integer-size-ladder-points", seen)
+    return res
+
+
 @rule("C01.R7", "integers are emitted in the standard's shortest form; bit strings declare (8 - n mod 8) mod 8 unused bits", floor=5, engines="E1 paths + E5 finite-domain evaluation")
 def r7(ctx):
     prog = ctx.prog
@@ -461,6 +536,11 @@ def r7(ctx):
             got[sign] = accs[0]
     want_neg = {(ln, d0, d1) for ln, d0, d1 in grid3 if ln > 1 and d0 == 0xFF and d1 >= 0x80}
     want_pos = {(ln, d0, d1) for ln, d0, d1 in grid3 if ln > 1 and d0 == 0 and d1 < 0x80}
+    if not got and not any(isinstance(l, ast.While) for l in walk_shallow(enc)):
+        # no strip loop at all: the other spelling of the same rule is a ladder of range tests choosing a signed width
+        lad = _size_ladder(ctx, k, enc, ev)
+        if lad is not None:
+            got = {"neg": want_neg if lad["neg"] else None, "pos": want_pos if lad["pos"] else None}
     ctx.check("Integer.encode:shortest-form-negative", got.get("neg") == want_neg, where(m, enc), "for negative values a leading 0xFF is dropped only while the next octet keeps the sign bit set")
     ctx.check("Integer.encode:shortest-form-positive", got.get("pos") == want_pos, where(m, enc), "for non-negative values a leading 0x00 is dropped only while the next octet keeps the sign bit clear")
     # zero is non-negative
